@@ -115,7 +115,8 @@ def strategy(tier):
              "n": draw(st.sampled_from([1, 1, 2, 3, 5, 8, 13, 20])),
              "style": draw(st.sampled_from(["mixed", "mixed", "keyword", "positional"])),
              "int_form": draw(st.sampled_from(["python", "python", "numpy"])),
-             "deep_tail": draw(st.sampled_from([0, 0, 0, 0, 0, 1, 2]))}
+             "deep_tail": draw(st.sampled_from([0, 0, 0, 0, 0, 1, 2])),
+             "array_params": draw(st.integers(0, 5)) == 0}
         if kind in ("d", "p", "m") and draw(st.integers(0, 3)) == 0:
             c["vector"] = [_sig(draw(st.floats(1e-3, 1 - 1e-3)), 6) for _ in range(draw(st.integers(2, 5)))]
             c["vector_reversed"] = draw(st.booleans())
@@ -519,6 +520,35 @@ def _oracle_one(case, rec, count=True):
             raise PropertyViolation(keyv + "/raises", "%s on the array %r raised %r" % (name_, xs, e), case)
         if vec.shape != xs.shape or not np.allclose(vec, one, rtol=1e-12, atol=0, equal_nan=True):
             raise PropertyViolation(keyv, "%s(%r, %r) = %r but element by element it gives %r" % (name_, xs, P, vec, one), case)
+    if case.get("array_params") and kind == "d" and fam in ("norm", "exp", "gamma", "unif", "beta") and count and not use_def:
+        # one parameter per observation (arrays of 1200 values), asked twice with arrays that agree at both ends and differ in
+        # the middle: every entry belongs to ITS parameter value, in both calls
+        n_ = 1200
+        key_ = {"norm": "mean", "exp": "rate", "gamma": "rate", "unif": "min", "beta": "shape2"}[fam]
+        base_ = float(P[key_])
+        alts_ = [base_ + 0.37 * abs(base_) + 0.11, base_ - 0.21 * abs(base_) - 0.07] if fam in ("norm", "unif") else [base_ * 1.7, base_ * 0.6]
+        if fam == "unif":
+            alts_ = [base_ - 0.5, base_ - 1.25]              # the lower end only moves down: x stays inside the support
+        xs_ = np.full(n_, float(x))
+        idx_ = [0, n_ // 2, n_ - 1]
+        rec.label("array-valued-parameter")
+        for alt_ in alts_:
+            arr_ = np.full(n_, base_)
+            arr_[200:1000] = alt_
+            Pa = dict(P)
+            Pa[key_] = arr_
+            try:
+                vec = np.asarray(_call("d" + fam, fam, xs_, Pa, False, log=log), float)
+                one = []
+                for j_ in idx_:
+                    Pj = dict(P)
+                    Pj[key_] = float(arr_[j_])
+                    one.append(float(_call("d" + fam, fam, float(x), Pj, False, log=log)))
+            except Exception as e:
+                raise PropertyViolation("C19/d%s/array-parameter/raises" % fam, "d%s with an array-valued %s raised %r" % (fam, key_, e), case)
+            if vec.shape != (n_,) or not np.allclose(vec[idx_], one, rtol=1e-12, atol=0, equal_nan=True):
+                raise PropertyViolation("C19/d%s/array-parameter" % fam, "d%s(x, %s=<array of %d>) gives %r at entries %s, the scalar calls give %r" % (
+                    fam, key_, n_, vec[idx_] if vec.shape == (n_,) else vec.shape, idx_, one), case)
     if nontrivial and count:
         rec.mark_nontrivial(case, dict(case, x=x))
     return x
